@@ -6,7 +6,9 @@
 
 // ---------------------------------------------------------------- expected parameter domain (C09)
 struct Domain { bool inside; std::string why; };
-inline Domain in_domain(int codec, int m, uint64_t k, uint64_t r, uint64_t E, uint64_t N1, uint64_t seed) {
+// The limits are the ADVERTISED ones (OF_CTRL_GET_MAX_K / OF_CTRL_GET_MAX_N): the executor passes what the session reports;
+// the defaults below are what the unchanged library advertises and what the generator (which never calls the library) uses.
+inline Domain in_domain(int codec, int m, uint64_t k, uint64_t r, uint64_t E, uint64_t N1, uint64_t seed, uint64_t adv_maxk = 0, uint64_t adv_maxn = 0) {
     uint64_t maxk = 0, maxn = 0;
     if (codec == C_RS8) { maxk = 255; maxn = 255; }
     else if (codec == C_RS2M) {
@@ -14,6 +16,8 @@ inline Domain in_domain(int codec, int m, uint64_t k, uint64_t r, uint64_t E, ui
         maxk = maxn = (1u << m) - 1;
     } else if (codec == C_LDPC) { maxk = 50000; maxn = 50000; }
     else return {true, ""};
+    if (adv_maxk && codec != C_RS2M) maxk = adv_maxk;
+    if (adv_maxn && codec != C_RS2M) maxn = adv_maxn;
     if (k < 1) return {false, "k=0"};
     if (k > maxk) return {false, "k>max"};
     if (r < 1) return {false, "r=0"};
@@ -29,7 +33,7 @@ inline Domain in_domain(int codec, int m, uint64_t k, uint64_t r, uint64_t E, ui
 
 inline bool materialisable(const Flow &f) {
     if (f.k == 0 || f.r == 0 || f.E == 0) return false;
-    if (f.k > 60000 || f.r > 60000 || f.E > (1u << 20)) return false;
+    if (f.k > 140000 || f.r > 140000 || f.E > (1u << 20)) return false;
     if ((uint64_t)(f.k + f.r) * f.E > (96ull << 20)) return false;
     return true;
 }
